@@ -556,9 +556,30 @@ def nb_poly(prog):
                                                     or (strip(a)[0] == "const" and strip(a)[2] == "32") for a in z[2]):
                                                 ok = True
                                                 why = "index ranges over 0..min(_, MAX_COEFFS)"
+            und = False
+            if not ok and fn.name == "mul":
+                # the bound may be hoisted out of the loop in another spelling: evaluate the loop bounds for concrete
+                # lengths (what LAW mul-pairs-complete does) — every pair visited must satisfy i + j < MAX_COEFFS
+                try:
+                    from . import law
+                    v_ = strip(val)
+                    idxs_ = []
+                    for x in mir.subterms(v_):
+                        if x[0] == "index" and "coefficients" in show(x[1]) and "arg" in show(x[1]):
+                            if strip(x[2]) not in idxs_:
+                                idxs_.append(strip(x[2]))
+                    if len(idxs_) == 2:
+                        pe = law._mul_pairs(prog, fn, (bb, pt, val, line), idxs_)
+                        if not pe or "skips" in pe[0]:
+                            ok = True
+                            why = "every pair the loops visit satisfies i + j < MAX_COEFFS (bounds evaluated for concrete lengths)"
+                    else:
+                        und = True
+                except Exception:
+                    und = True
             n += 1
-            out.append(inst("NB", "%s:coeff-write#%d" % (fn.npath, k), OK if ok else VIOLATION, fn, line,
-                            why if ok else "write to coefficient %s is not bounded by MAX_COEFFS" % show(idx)))
+            out.append(inst("NB", "%s:coeff-write#%d" % (fn.npath, k), OK if ok else (UNDECIDED if und else VIOLATION), fn, line,
+                            why if ok else "%swrite to coefficient %s is not bounded by MAX_COEFFS" % ("?" if und else "", show(idx))))
     if n < 2:
         raise CheckerError("NB-poly: coefficient writes not found")
     return out
